@@ -124,3 +124,37 @@ Example C10_example_isolated :
          /\ exists h3, Alias.step (fun _ m => m) h2 (Alias.HUpdateDefaults Q [(s "x", s "dx")]) = Some (h3, None)
                         /\ Alias.pobs h3 P = Alias.pobs h2 P /\ Alias.pobs h3 Q <> Alias.pobs h2 Q).
 Proof. exact alias_instance. Qed.
+
+(* ---------- add_mapspec_axis (map side; the names of Model/MapSpec.v shadow those of Model/Pipe.v from here on) ---------- *)
+From Verif Require Import Base.Index Base.NdArr Model.MapSpec Model.MapSpecSpec Model.MapRun Model.RewriteMap
+  Proofs.RewriteMapFacts.
+
+(* add_axis_wf: if add_mapspec_axis( *params, axis) succeeds on a pipeline whose MapSpecs are well-formed
+   (MapSpecSpec.wf_decl) and name their function's outputs (spec_ok), then
+   - nothing but MapSpecs changes, and a function whose MapSpec changes carries the axis on ALL its outputs (upd);
+   - every MapSpec is still well-formed and names its function's outputs;
+   - the MapSpecs are mutually consistent (one rank and one axis name per position for every array);
+   - every function that depends on one of the parameters - takes it (unbound), or takes an output of a function
+     that depends on it (depi) - has the axis on all its outputs. *)
+Theorem C10_add_axis_wf : forall params axis p p',
+  Forall (fun f => spec_ok f = true) p -> add_axis params axis p = Ok p' ->
+  Forall2 (upd axis) p p'
+  /\ Forall (fun f => spec_ok f = true) p'
+  /\ consistent_axes p' = true
+  /\ (forall q i, In q params -> depi p q i -> goodi axis p' i).
+Proof. exact add_axis_wf. Qed.
+Print Assumptions C10_add_axis_wf.
+
+Example C10_example_add_axis :
+  let A n ax := {| aname := n; axes := ax |} in
+  let f := {| fname := s "f"; fouts := [s "y"]; fparams := [s "x"]; fbound := []; fdefaults := [];
+              fspec := Some {| ins := [A (s "x") [Some (s "i")]]; outs := [A (s "y") [Some (s "i")]] |};
+              fint := []; fret := [] |} in
+  let g := {| fname := s "g"; fouts := [s "z"]; fparams := [s "y"; s "c"]; fbound := []; fdefaults := [];
+              fspec := None; fint := []; fret := [] |} in
+  Forall (fun h => spec_ok h = true) [f; g]
+  /\ exists p', add_axis [s "x"] (s "k") [f; g] = Ok p'
+     /\ map (fun h => option_map print (fspec h)) p'
+        = [Some (s "x[i, k] -> y[i, k]"); Some (s "y[:, k] -> z[k]")]
+     /\ depi [f; g] (s "x") 1.
+Proof. exact add_axis_instance. Qed.
